@@ -19,6 +19,9 @@ type searchLinker struct {
 	symbols  *linker.Symbols
 	Reporter reporter.Reporter
 	resolver fileSource
+
+	// results being linked further up the stack, to detect import cycles
+	linking map[*SearchResult]struct{}
 }
 
 func newLinker(src fileSource, errs reporter.Reporter) *searchLinker {
@@ -26,6 +29,7 @@ func newLinker(src fileSource, errs reporter.Reporter) *searchLinker {
 		symbols:  &linker.Symbols{},
 		Reporter: errs,
 		resolver: src,
+		linking:  map[*SearchResult]struct{}{},
 	}
 }
 
@@ -74,7 +78,13 @@ func (ll *searchLinker) linkResult(ctx context.Context, result *SearchResult) (l
 	}
 	log.WithField(ctx, "sourceFilename", result.Summary.SourceFilename).Debug("link-new")
 
+	if _, ok := ll.linking[result]; ok {
+		// e.g. two j5s files of one package using each other's types
+		return nil, fmt.Errorf("import cycle through %s", result.Summary.SourceFilename)
+	}
+	ll.linking[result] = struct{}{}
 	linked, err := ll._linkNewResult(ctx, result)
+	delete(ll.linking, result)
 	if err != nil {
 		return nil, err
 	}
